@@ -193,8 +193,19 @@ class Runner(object):
             self._restart(e[1])
         elif k == "probe_vote":
             # a competing candidate of the voter's CURRENT term with a log that is at least as good
+            # "*": from a peer the voter has NOT voted for in this term according to the wire (a probe
+            # from the candidate it voted for would only repeat that vote); no recorded vote -> no probe
             v, frm = e[1], e[2]
-            if not self.live(v) or frm == v:
+            if not self.live(v):
+                return False
+            if frm == "*":
+                ds = self.votes.get((v, self.term(v)))
+                cand = [j for j in self.V if j != v and ds and j not in ds]
+                if not cand:
+                    return False
+                frm = cand[0]
+                e = [k, v, frm]
+            if frm == v:
                 return False
             ctx["pre"] = self._pre_deliver(v)
             m = {"type": "request_vote", "term": self.term(v), "last_log_index": 10 ** 6, "last_log_term": 10 ** 6}
@@ -592,10 +603,8 @@ def random_schedule(r, rng, n_events):
                 if rng.random() < 0.3:
                     r.ev("notice", j, i)
                 r.ev("connect", i, j)
-        if rng.random() < 0.35:
-            others = [j for j in V if j != i and j != r.before.get(i, {}).get("voted")]
-            if others:
-                r.ev("probe_vote", i, rng.choice(others))
+        if rng.random() < 0.5:
+            r.ev("probe_vote", i, "*")
 
     while len(r.events) < n_events and not r.viol:
         live = r.V_live()
@@ -788,9 +797,11 @@ def base_conflict(r):
 
 
 BASES = {"vote": base_vote, "replication": base_replication, "snapshot": base_snapshot, "conflict": base_conflict}
+# (conflict: one batch per tick — with several pipelined batches and a conflicting LAST entry on the follower
+#  the real code alternates between two reset replies forever; a progress matter (C05), see notes/restart.md)
 BASE_CONF = {"vote": {}, "replication": {"appendEntriesBatchSizeBytes": 24},
              "snapshot": {"logCompactionBatchSize": 16, "appendEntriesBatchSizeBytes": 24},
-             "conflict": {"appendEntriesBatchSizeBytes": 8}}
+             "conflict": {"appendEntriesBatchSizeBytes": 2 ** 16}}
 
 
 def record_base(repo, name, spec, tmpdir):
@@ -813,9 +824,7 @@ def back_up(V, victims, probe=True):
                 ev.append(["connect", v, j])
     if probe:
         for v in victims:
-            for j in V:
-                if j != v:
-                    ev.append(["probe_vote", v, j])
+            ev.append(["probe_vote", v, "*"])
     return ev
 
 
